@@ -1,5 +1,6 @@
 import PhononModel.Lemmas.ShortestPairs
 import PhononModel.Lemmas.ShortestPairsTol
+import PhononModel.Lemmas.WindowCert
 /-!
 # C05 — shortest-vector tables are the complete set of minimum-image vectors
 
@@ -80,14 +81,43 @@ theorem impl_subset_spec_iff (G : M3 ℚ) (hs : isSymm G = true) (hp : isPD G = 
     · rintro ⟨n, hn, rfl⟩
       exact ⟨n, hw n hn, rfl, fun p' _ => hn p'⟩
 
+/-- **window_complete_of_certificate**: the reduction of window completeness to a finite decidable
+condition on the Gram matrix.  `windowCert G window65` inspects the finitely many lattice points `n` of
+a box (outside it every image is longer than any reduced separation) that are not search points and
+asks for a neighbour step `e` with `2·eᵀGn − Q(e) − ‖Ge‖₁ > 0`; then `d+n−e` is strictly shorter than
+`d+n` for every `d ∈ [-1/2,1/2]³`.  If it passes, the window is complete for **all** reduced
+separations at once.  The check evaluates it in the driver for every generated lattice. -/
+theorem window_complete_of_certificate (G : M3 ℚ) (hs : isSymm G = true) (hp : isPD G = true)
+    (hc : windowCert G window65 = true) (d : V3 ℚ) (hd : |d.x| ≤ 1/2 ∧ |d.y| ≤ 1/2 ∧ |d.z| ≤ 1/2) :
+    WindowComplete G d window65 :=
+  fun n hn => windowCert_sound G (pd_of_checks G hs hp) window65 hc d hd n hn
+
+/-- … and therefore the kernels' table is the set of minimum images over the whole lattice, for every
+pair whose reduced separation lies in the cube (it always does: positions are reduced by `rint`). -/
+theorem impl_eq_spec_of_certificate (G : M3 ℚ) (hs : isSymm G = true) (hp : isPD G = true)
+    (hc : windowCert G window65 = true) (d : V3 ℚ) (hd : |d.x| ≤ 1/2 ∧ |d.y| ≤ 1/2 ∧ |d.z| ≤ 1/2) (v : V3 ℚ) :
+    v ∈ pairShortest G d window65 ↔ v ∈ specShortest G d :=
+  ((impl_subset_spec_iff G hs hp d window65).mpr (window_complete_of_certificate G hs hp hc d hd)) v
+
+/-- per-pair certificate (always decidable, also when the per-lattice certificate is not evaluated):
+the window is complete for `(G, d)` iff every point of `specShortestPoints G d` is a search point. -/
+theorem window_complete_iff_spec_subset (G : M3 ℚ) (hs : isSymm G = true) (hp : isPD G = true) (d : V3 ℚ) (pts : List (V3 ℤ)) :
+    WindowComplete G d pts ↔ ∀ n ∈ specShortestPoints G d, n ∈ pts := by
+  have h := pd_of_checks G hs hp
+  constructor
+  · intro hw n hn; exact hw n ((mem_spec_iff_global G h d n).mp hn)
+  · intro hsub n hn; exact hsub n ((mem_spec_iff_global G h d n).mpr hn)
+
+example : windowCert (M3.one : M3 ℚ) window65 = true := by decide +kernel
+example : windowCert (⟨4, 2, 2, 2, 4, 2, 2, 2, 4⟩ : M3 ℚ) window65 = true := by decide +kernel   -- fcc primitive, acute
+
 /-- the part of the property that is **not** a theorem here (the source says "There is no proof that
-this is enough"): for every Niggli-reduced Gram matrix and every separation reduced into
-`[-1/2, 1/2]³` the 65-point window is complete.  It is tested on every generated case by comparing
-`implShortest` with `specShortest`. -/
+this is enough"): for **every** well-reduced Gram matrix the certificate passes / the 65-point window is
+complete for every separation reduced into `[-1/2, 1/2]³`.  It is a theorem for every lattice whose
+certificate passes (`window_complete_of_certificate`), evaluated per case, and is tested per pair
+against `specShortest` otherwise. -/
 def FullStatement_window : Prop :=
-  ∀ (G : M3 ℚ) (d : V3 ℚ), PD G →
-    (2 * |G.a01| ≤ min G.a00 G.a11 ∧ 2 * |G.a02| ≤ min G.a00 G.a22 ∧ 2 * |G.a12| ≤ min G.a11 G.a22 ∧
-      G.a00 ≤ G.a11 ∧ G.a11 ≤ G.a22) →
+  ∀ (G : M3 ℚ) (d : V3 ℚ), PD G → wellReduced G = true →
     (|d.x| ≤ 1/2 ∧ |d.y| ≤ 1/2 ∧ |d.z| ≤ 1/2) → WindowComplete G d window65
 
 /-- **window_complete_partial**: the sub-case that is proved — orthogonal reduced lattices (diagonal
@@ -236,6 +266,9 @@ end PhononModel.C05
 #print axioms PhononModel.C05.spec_is_global_minimum
 #print axioms PhononModel.C05.impl_is_window_minimum
 #print axioms PhononModel.C05.impl_subset_spec_iff
+#print axioms PhononModel.C05.window_complete_of_certificate
+#print axioms PhononModel.C05.impl_eq_spec_of_certificate
+#print axioms PhononModel.C05.window_complete_iff_spec_subset
 #print axioms PhononModel.C05.window_complete_partial
 #print axioms PhononModel.C05.impl_eq_spec_orthogonal
 #print axioms PhononModel.C05.tolerance_rule_is_in_length
